@@ -378,6 +378,14 @@ func (ex *Exec) applyContract(st *State, i *ssa.Call, f *ssa.Function, fc *FuncC
 
 func letMap(fc *FuncContract) map[string]*LetDef {
 	m := map[string]*LetDef{}
+	if theContracts != nil {
+		for k, v := range theContracts.Globals {
+			m[k] = v
+		}
+	}
+	if fc == nil {
+		return m
+	}
 	for _, l := range fc.Lets {
 		m[l.Name] = l
 	}
